@@ -156,9 +156,9 @@ fn render_all(ax: &mut Axecutor, viol: &mut Vec<(String, String)>, ctx: &str, de
     }
 }
 
-fn run_program(prog: &[Item], code: &[u8]) -> (Vec<(String, String)>, u64, u64) {
+fn run_program(prog: &[Item], code: &[u8], tiny_stack: bool) -> (Vec<(String, String)>, u64, u64) {
     let mut viol: Vec<(String, String)> = vec![];
-    let ctx = format!("program {:?}", prog);
+    let ctx = format!("program {:?}{}", prog, if tiny_stack { " on a 16-byte stack" } else { "" });
     let mut padded = code.to_vec();
     padded.push(0x90); // the run ends by reaching the end of the code after this nop
     let mut ax = Axecutor::new(&padded, BASE, BASE).unwrap();
@@ -166,7 +166,9 @@ fn run_program(prog: &[Item], code: &[u8]) -> (Vec<(String, String)>, u64, u64) 
         ax.reg_write_64(crate::emu::GPR64[k], crate::emu::filler_gpr(k)).unwrap();
     }
     ax.reg_write_64(SR::RCX, 3).unwrap();
-    ax.init_stack(0x1000).unwrap();
+    // the tiny stack holds one return address: the second nested call (and every push after
+    // it) faults, which is how a run "ends in an error" in the middle of a transfer
+    ax.init_stack(if tiny_stack { 16 } else { 0x1000 }).unwrap();
     ax.set_max_instructions(60);
     // model
     let mut mtrace: Vec<TraceView> = ax.verif_trace_entries();
@@ -191,6 +193,20 @@ fn run_program(prog: &[Item], code: &[u8]) -> (Vec<(String, String)>, u64, u64) 
             StepOut::Err(_) => {
                 // the decorated error was rendered inside step(); render again explicitly
                 render_all(&mut ax, &mut viol, &ctx, depth_class);
+                // a transfer that failed was not taken: it leaves no entry and no frame
+                let kname = d.as_ref().map(|d| match d.instr.flow_control() {
+                    FlowControl::Call | FlowControl::IndirectCall => "call",
+                    FlowControl::Return => "return",
+                    FlowControl::Next => "none",
+                    _ => "jump",
+                }).unwrap_or("none");
+                let itrace = ax.verif_trace_entries();
+                if itrace.len() != mtrace.len() || itrace.iter().zip(mtrace.iter()).any(|(a, b)| a.instr_ip != b.instr_ip || a.target != b.target || a.kind != b.kind || a.count != b.count) {
+                    viol.push((format!("trace|entry-for-failed-instruction|{kname}"), format!("{ctx}: the step at {rip:#x} failed, yet the trace changed: {} entries before, {} after", mtrace.len(), itrace.len())));
+                }
+                if ax.verif_call_stack_raw() != mstack {
+                    viol.push((format!("call-stack|changed-by-failed-instruction|{kname}"), format!("{ctx}: the step at {rip:#x} failed, yet the call stack changed: {:x?} -> {:x?}", mstack, ax.verif_call_stack_raw())));
+                }
                 break;
             }
             StepOut::Ok(_) => {}
@@ -330,7 +346,13 @@ fn gen(maxlen: usize) -> impl Fn(&mut EnumCtx) + Sync {
                 }
                 let code = assemble(&prog);
                 e.describe("trace", &format!("{:?}", prog));
-                let (viol, t, h) = run_program(&prog, &code);
+                let (mut viol, mut t, mut h) = run_program(&prog, &code, false);
+                if len < maxlen {
+                    let (v2, t2, h2) = run_program(&prog, &code, true);
+                    viol.extend(v2);
+                    t += t2;
+                    h ^= h2.rotate_left(17);
+                }
                 e.count("transitions", t);
                 e.outcome(h);
                 e.state(crate::common::fnv64(&code));
@@ -371,7 +393,7 @@ pub fn run(tier: Tier) -> i32 {
         run.findings.merge(f);
         run.cov("devlike_profile_run", summary);
     }
-    enum_evidence(&mut run, &out, "one case = a program of <= L items over {jmp next, dec/jne countdown loop, je taken, je untaken, call next, ret, push addr+ret (unmatched return), mov+call rax, mov+jmp rax, int3, call/ret pair, one indirect jump taken twice with two targets, direct self-recursion, one ret executed twice with the same target}; after every step the structured trace and call stack are compared with an independent tracer (iced decode, condition evaluated on the flags, targets from its own operand evaluation, run-length collapse), and trace()/call_stack()/to_string() are rendered under catch_unwind and an allocation guard; states = distinct programs; distinct_nontrivial = distinct trace histories");
+    enum_evidence(&mut run, &out, "one case = a program of <= L items over {jmp next, dec/jne countdown loop, je taken, je untaken, call next, ret, push addr+ret (unmatched return), mov+call rax, mov+jmp rax, int3, call/ret pair, one indirect jump taken twice with two targets, direct self-recursion, one ret executed twice with the same target}; every program also on a 16-byte stack when shorter than L (nested calls and pushes then fault: a failed transfer must leave no trace entry and no frame); after every step the structured trace and call stack are compared with an independent tracer (iced decode, condition evaluated on the flags, targets from its own operand evaluation, run-length collapse), and trace()/call_stack()/to_string() are rendered under catch_unwind and an allocation guard; states = distinct programs; distinct_nontrivial = distinct trace histories");
     run.cov("program_max_length", json!(maxlen));
     run.guard("cases", out.cases >= 10_000 || out.capped, format!("{} programs", out.cases));
     run.guard("traces-distinct", out.distinct > 100, format!("{} distinct trace histories", out.distinct));
